@@ -546,6 +546,9 @@ func vType(k int) (*MessageInfo, pointer) {
 	if k == 31 {
 		return vMI_One3(), pointer{p: unsafe.Pointer(new(VOne3))}
 	}
+	if k == 32 {
+		return vMI_Maps(), pointer{p: unsafe.Pointer(new(VMaps))}
+	}
 	if k >= 20 {
 		switch k {
 		case 20:
